@@ -1860,6 +1860,9 @@ func (ls *LState) Register(name string, fn LGFunction) {
 func (ls *LState) Load(reader io.Reader, name string) (*LFunction, error) {
 	chunk, err := parse.Parse(reader, name)
 	if err != nil {
+		if _, ok := err.(*parse.ReadError); ok {
+			return nil, newApiErrorE(ApiErrorFile, err)
+		}
 		return nil, newApiErrorE(ApiErrorSyntax, err)
 	}
 	proto, err := Compile(chunk, name)
